@@ -255,6 +255,7 @@ def leVal : Str → Nat
 inductive PrintErr
   | noBuffer | descTooLong | truncatedPct | fmtEnd | fmtTooLong | missingName | nameEnd
   | badName | nameTooLong | argNotFound | noSpaceArg | badFormat | shortPayload | unterminated
+  | noPayload | payloadTooShort
   deriving DecidableEq, Repr
 
 def PrintErr.tag : PrintErr → String
@@ -263,6 +264,7 @@ def PrintErr.tag : PrintErr → String
   | .nameEnd => "name-end" | .badName => "bad-name" | .nameTooLong => "name-too-long"
   | .argNotFound => "arg-not-found" | .noSpaceArg => "no-space-arg" | .badFormat => "bad-format"
   | .shortPayload => "short-payload" | .unterminated => "unterminated"
+  | .noPayload => "no-payload" | .payloadTooShort => "payload-too-short"
 
 /-- What the scanner of a description reports, in input order:
     `open` = a `%` met in text (the `while` loop of `ev_spec_print` checks the
@@ -356,9 +358,15 @@ def emit (spec : Spec) (payload : Str) : Seg → Out → Except PrintErr Out
 
 /-- `ev_spec_print(spec, ev, outbuf, outlen)`: the NUL-terminated text left in
     `outbuf`. `payload` = the bytes `ev->payload` points to (for a jumbo event
-    that includes the 4-byte size). -/
+    that includes the 4-byte size); `ev->payload` is `NULL` exactly when there
+    are none (`emu_ev`), and `ev->payload_size` is their number.  An event
+    declared with arguments is refused when it was stored with fewer bytes
+    than declared. -/
 def print (spec : Spec) (desc : Str) (payload : Str) (outlen : Nat) : Except PrintErr Str :=
-  if outlen == 0 then .error .noBuffer else
+  if outlen == 0 then .error .noBuffer
+  else if !spec.args.isEmpty && payload.isEmpty then .error .noPayload
+  else if !spec.args.isEmpty && payload.length < spec.payloadSize then .error .payloadTooShort
+  else
   match scan (emit spec payload) .text (cstr desc) ([], outlen - 1) with
   | .error e => .error e
   | .ok (o, _) => .ok o
